@@ -15,7 +15,9 @@ type RepOptions struct {
 	NullChance  int // as in DataOptions
 }
 
-func DefaultRep() RepOptions { return RepOptions{MaxEntities: 4, MaxList: 200, LongChance: 4, NullChance: 8} }
+func DefaultRep() RepOptions {
+	return RepOptions{MaxEntities: 4, MaxList: 200, LongChance: 4, NullChance: 8}
+}
 
 // GenDataRepeats is GenData with result lists of widely varying length (0..MaxList) over few
 // entities, so that the same entity occurs many times in one list and under many parents — the
